@@ -116,6 +116,59 @@ func c18(c *ev.Ctx) {
 		}
 		c.SampleEvery(i, func() interface{} { return map[string]string{"script": script} })
 	})
+	// operand-count families: hash / array / call shapes with repeated or colliding
+	// keys and elements (the verifier needs no model, so duplicates are in scope)
+	nh := c.Pick(1500, 60000)
+	c.ParFor(nh, func(i int) {
+		id := fmt.Sprintf("shape/%d", i)
+		if !c.Want(id) {
+			return
+		}
+		r := c.Rng("shape", i)
+		keys := []string{"\"a\"", "\"a\"", "\"b\"", "1", "1", "1.0", "\"1\"", "k", "\"k\" + \"\"", "2 - 1", "x"}
+		vals := []string{"1", "2", "\"v\"", "x", "[1, 2]", "{\"n\": 1}", "1 + 1", "len(\"ab\")"}
+		mkHash := func() string {
+			n := r.Intn(6)
+			var parts []string
+			for j := 0; j < n; j++ {
+				parts = append(parts, keys[r.Intn(len(keys))]+": "+vals[r.Intn(len(vals))])
+			}
+			return "{" + strings.Join(parts, ", ") + "}"
+		}
+		h := mkHash()
+		var script string
+		switch r.Intn(7) {
+		case 0:
+			script = "return " + h + ";"
+		case 1:
+			script = "x = 1; k = \"kk\"; y = [0, " + h + ", 3]; return len(y);"
+		case 2:
+			script = "x = 2; k = \"a\"; return len(string(" + h + ")) + len(keys(" + mkHash() + "));"
+		case 3:
+			script = "function f(p, q) { x = p; k = q; return " + h + "; } return f(1, \"a\");"
+		case 4:
+			script = "x = 0; k = \"z\"; foreach e in [" + h + ", " + mkHash() + "] { x = x + len(e); } return x;"
+		case 5:
+			script = "x = 1; k = 2; if (" + h + ") { return 1; } return 1 + len(" + h + ");"
+		default:
+			script = "x = 1; k = 1; return {\"outer\": " + h + ", \"outer\": " + mkHash() + "};"
+		}
+		ok, instrs := c18Check(c, id, "hash literal shape", script)
+		c.Count("instructions_verified", instrs)
+		c.Case(script, true)
+		if ok {
+			for _, noOpt := range []bool{false, true} {
+				if evr, err := eng.New(script, eng.Options{NoOptimize: noOpt}); err == nil {
+					ob := evr.Exec(nil)
+					if sErr := isInternalError(ob.Err); sErr != "" {
+						c.Violation(id, "internal machine error at run time (hash shape)", map[string]interface{}{
+							"summary": fmt.Sprintf("run failed with the machine's internal error %q; the script uses no value-less call\n  script: %s", ob.Err, script), "script": script})
+					}
+					c.Count("dynamic_runs", 1)
+				}
+			}
+		}
+	})
 	// boundary programs
 	type bcase struct{ name, script string }
 	var bs []bcase
